@@ -280,6 +280,16 @@ def run(ctx):
         if o.rule in ('C18.CKDPRIV', 'C18.MASTER'):
             o.rule = 'C01.INVALID(=%s)' % o.rule
             ctx.obligations.append(o)
+    # "for a derived node" includes nodes derived from a parent that was parsed from an extended key string: what parse
+    # makes of the string (fields at their widths, the network handed on to the node) is part of this property (seed C01-N)
+    from . import C07
+    sub7 = ctx.__class__('C01', ctx.tier, ctx.p, ctx.seed)
+    sub7.embedded = True
+    C07.run(sub7)
+    for o in sub7.obligations:
+        if o.rule in ('C07.LAYOUT',):
+            o.rule = 'C01.PARSE(=C07.LAYOUT)'
+            ctx.obligations.append(o)
     check_bulk(ctx, 'C01.BULK', kinds=('prv',))
     # ------------------------------------------------------------------ transitivity: derive_path is a fold of ckd
     C17.check_fold(ctx, 'C01.FOLD')
